@@ -416,6 +416,27 @@ def check(ctx):
     except Unknown as err:
         ctx.undecided("C18.R7", f"to_open_api_3_0: guard of the type-splitting branch: {err}")
 
+    # ---------------- R8: the converters work on a shallow copy
+    ctx.rule("C18.R8", "a converter only rebinds keys of its shallow copy: the values (lists, dicts) are shared with the schema it was given - ultimately the user's schema(extra=...) - and are never modified in place (append / extend / update on `result[...]`): otherwise every generation changes the next one", floor=4)
+    n8 = 0
+    for fi in model.funcs_in_module(VMOD):
+        if not (fi.name.startswith("to_") or fi.name == "isolate_ref"):
+            continue
+        n8 += 1
+        copies = {"result", "schema"} | set(fi.params)
+        for c in walk_no_nested(fi.node):
+            if not (isinstance(c, ast.Call) and isinstance(c.func, ast.Attribute) and c.func.attr in ("append", "extend", "insert", "update", "remove", "clear", "sort", "reverse", "add")):
+                continue
+            recv = c.func.value
+            nested_value = (isinstance(recv, ast.Subscript) and isinstance(recv.value, ast.Name) and recv.value.id in copies) or \
+                (isinstance(recv, ast.Call) and isinstance(recv.func, ast.Attribute) and recv.func.attr in ("get", "setdefault") and isinstance(recv.func.value, ast.Name) and recv.func.value.id in copies)
+            if nested_value:
+                ctx.fail("C18.R8", f"{fi.qualname}:{short(c, 40)}", None,
+                         f"`{short(c, 70)}` modifies in place a value held by the shallow copy: when the key comes from schema(extra={{...}}) the user's own list grows at every schema generation (a `$ref` appended per call, then emitted as a dangling `#/definitions/...` in the other dialects)",
+                         fi.module.relpath, c.lineno)
+        ctx.ok("C18.R8", f"{fi.qualname}", "no in-place operation on a value of the copied node", True, f"{fi.module.relpath}:{fi.node.lineno}")
+    ctx.require(n8 >= 4, f"dialect converters found: {n8}")
+
     # ---------------- R3
     ctx.rule("C18.R3", "the dialect conversion is applied at every nesting level", floor=4)
     jv = model.cls(f"{VMOD}.JsonSchemaVersion")
@@ -466,6 +487,8 @@ def check(ctx):
 
 def mutants(mb):
     V = "apischema/json_schema/versions.py"
+    mb.add_text("isolate-ref-in-place", V, '        schema["allOf"] = [*schema.get("allOf", ()), {"$ref": schema.pop("$ref")}]\n', '        schema.setdefault("allOf", []).append({"$ref": schema.pop("$ref")})\n', "C18.R8", "isolate_ref")
+    mb.add_text("anyof-extended-in-place", V, '                result["anyOf"] = any_of\n', '                result.setdefault("anyOf", []).extend(any_of)\n', "C18.R8", "to_open_api_3_0")
     mb.add_text("type-guard-sequence", V, '    if "type" in result and not isinstance(result["type"], (str, JsonType)):\n', '    if isinstance(result.get("type"), Sequence) and not isinstance(result.get("type"), str):\n', "C18.R7", "type as set")
     mb.add_text("type-guard-list-only", V, '    if "type" in result and not isinstance(result["type"], (str, JsonType)):\n', '    if isinstance(result.get("type"), list):\n', "C18.R7", "type as set")
     mb.add_text("neg-type-guard-collections", V, '    if "type" in result and not isinstance(result["type"], (str, JsonType)):\n', '    if isinstance(result.get("type"), (list, tuple, set, frozenset)):\n', negative=True)
@@ -479,11 +502,11 @@ def mutants(mb):
     mb.add_text("prefix-wrong", V, '    "http://json-schema.org/draft-07/schema#",\n    "#/definitions/",', '    "http://json-schema.org/draft-07/schema#",\n    "#/$defs/",', "C18.R4", "DRAFT_7")
     mb.add_text("no-isolate-ref-7", V, "    result = to_json_schema_2019_09(schema)\n    isolate_ref(result)\n    if \"$defs\" in result:", "    result = to_json_schema_2019_09(schema)\n    if \"$defs\" in result:", "C18.R5", "DRAFT_7")
     mb.add_text("uri-2019-wrong", V, '"http://json-schema.org/draft/2019-09/schema#"', '"http://json-schema.org/draft/2020-12/schema#"', "C18.R6", "DRAFT_2019_09", count=1)
-    mb.add_text("nullable-lost", V, '        if "null" in result["type"]:\n            result.setdefault("nullable", True)\n        result["type"] = [t for t in result["type"] if t != "null"]\n        if len(result["type"]) > 1:\n            result.setdefault("anyOf", []).extend(\n                {"type": t} for t in result.pop("type")\n            )\n        else:\n            result["type"] = result["type"][0]\n',
-                '        types = [t for t in result.pop("type") if t != "null"]\n        if len(types) == 1:\n            result["type"] = types[0]\n            result.setdefault("nullable", True)\n        else:\n            result.setdefault("anyOf", []).extend({"type": t} for t in types)\n', "C18.R2n", "type")
+    mb.add_text("nullable-lost", V, '        if "null" in result["type"]:\n            result.setdefault("nullable", True)\n        result["type"] = [t for t in result["type"] if t != "null"]\n',
+                '        result["type"] = [t for t in result["type"] if t != "null"]\n', "C18.R2n", "type")
     mb.add_text("anyof-null-lost", V, '        result.setdefault("nullable", True)\n        result["anyOf"] = [a for a in result["anyOf"] if a != {"type": "null"}]', '        result["anyOf"] = [a for a in result["anyOf"] if a != {"type": "null"}]', "C18.R2n", "anyOf")
     mb.add_text("not-self-referential", V, "sub_conversion=LazyConversion(lambda: tmp)", "sub_conversion=None", "C18.R3", "conversion")
-    mb.add_text("schema-no-conversion", S, "        check_type=True,\n        conversion=version.conversion,\n        default_conversion=converters.default_serialization,\n        fall_back_on_any=True,\n    )\n    if with_schema", "        check_type=True,\n        default_conversion=converters.default_serialization,\n        fall_back_on_any=True,\n    )\n    if with_schema", "C18.R3", "_schema")
+    mb.add_text("schema-no-conversion", S, "        check_type=True,\n        conversion=version.conversion,\n        default_conversion=converters.default_serialization,\n        fall_back_on_any=True,\n", "        check_type=True,\n        default_conversion=converters.default_serialization,\n        fall_back_on_any=True,\n", "C18.R3", "_schema")
     mb.add_text("unsupported-list-shrunk", V, 'OPEN_API_3_0_UNSUPPORTED = [\n    "dependentRequired",\n    "unevaluatedProperties",\n    "additionalItems",\n]', 'OPEN_API_3_0_UNSUPPORTED = [\n    "dependentRequired",\n    "unevaluatedProperties",\n]', "C18.R1", "OPEN_API_3_0:additionalItems")
     mb.add_text("nullable-on-plain-copy", V, '        result.setdefault("nullable", True)\n        result["anyOf"] = [a for a in result["anyOf"] if a != {"type": "null"}]', '        any_of = [a for a in result["anyOf"] if a != {"type": "null"}]\n        if len(any_of) == 1 and "type" in any_of[0]:\n            any_of = [{**any_of[0], "nullable": True}]\n        else:\n            result.setdefault("nullable", True)\n        result["anyOf"] = any_of', "C18.R3", "node")
     mb.add_text("merged-definition-plain-dict", S, "        return JsonSchema(merged) if isinstance(write, JsonSchema) else merged\n", "        return merged\n", "C18.R3", "merged")
